@@ -29,7 +29,7 @@ struct _table_riscv table_riscv[] =
   { "neg",        0x40000033, 0xfe0ff07f, OP_ALIAS_RD_RS2,       0 },
   { "negw",       0x4000003b, 0xfe0ff07f, OP_ALIAS_RD_RS2, RISCV64 },
   { "sext.w",     0x0000001b, 0xfff0707f, OP_ALIAS_RD_RS1, RISCV64 },
-  { "seqz",       0x00103013, 0x0000707f, OP_ALIAS_RD_RS1,       0 },
+  { "seqz",       0x00103013, 0xfff0707f, OP_ALIAS_RD_RS1,       0 },
   { "snez",       0x00003033, 0xfe0ff07f, OP_ALIAS_RD_RS2,       0 },
   { "sltz",       0x00002033, 0xfff0707f, OP_ALIAS_RD_RS1,       0 },
   { "sgtz",       0x00002033, 0xfe0ff07f, OP_ALIAS_RD_RS2,       0 },
